@@ -327,7 +327,8 @@ def c07_events(version, n, seed):
         with rngmod.constant(0.31):
             alt_i, L_i = eas.altDec(bb.copy(), tb.copy(), tg.copy())
         alt_x, L_x = eas.altDec(bb.copy(), tb.copy(), tg.copy(), np.full(k, 0.31))
-        events.append({"kind": "explicit", "zint": [bits(x) for x in np.concatenate([alt_i, L_i])],
+        # (C07 does not state this for the decay stage - C04 states it for the tau energy: an extended-spec clause here)
+        events.append({"kind": "explicit_ext", "zint": [bits(x) for x in np.concatenate([alt_i, L_i])],
                        "zexp": [bits(x) for x in np.concatenate([alt_x, L_x])], "_m": {"what": "altDec", "n": k}})
         # monotonicity pairs
         u2 = np.clip(uu * rng.uniform(1.0, 3.0, k), 0, 1.0)
